@@ -8,6 +8,7 @@ from __future__ import annotations
 
 import ast
 
+from engine.astutil import conjuncts, parse_cond
 from engine.loader import AnalysisError, src, walk_own
 
 PID = "C10"
@@ -104,15 +105,14 @@ def check_siblings(prog, ctx):
         ifs = [n for n in walk_own(f.node) if isinstance(n, ast.If) and any(
             isinstance(c, ast.Call) and src(c.func) == "new.phase_global" for s in n.body for c in ast.walk(s))]
         ctx.need(len(ifs) == 1, f"{f.qualname}: expected one guarded phase_global")
-        t = src(ifs[0].test).replace("(", "").replace(")", "")
-        conds[f.name] = (t, ifs[0])
+        conds[f.name] = (conjuncts(ifs[0].test), ifs[0])
         # the sign must be taken after the labels/charge were updated (uses new.parity of the new charge: same parity)
         after = ifs[0].lineno > (mc if f is conj else md).lineno
         ctx.check(after, rid, f, ifs[0], "order", f"(c) {f.name}: the odd global sign is decided after charge and labels are updated")
-    base = "new.parity and lennew._oddpos % 2 == 1"
-    ctx.check(conds["dagger"][0] == base, rid, dag, conds["dagger"][1], conds["dagger"][0],
+    base = parse_cond("new.parity and len(new._oddpos) % 2 == 1")
+    ctx.check(conds["dagger"][0] == base, rid, dag, conds["dagger"][1], src(conds["dagger"][1].test),
               "(c) dagger: global sign iff odd parity and an odd number of labels")
-    ctx.check(conds["conj"][0] == "phase_permutation and " + base, rid, conj, conds["conj"][1], conds["conj"][0],
+    ctx.check(conds["conj"][0] == base | parse_cond("phase_permutation"), rid, conj, conds["conj"][1], src(conds["conj"][1].test),
               "(c) conj: same condition, additionally gated by the virtual-reversal option")
     # (d) dual-leg selection
     sc, nc, dc = _leg_selection(ctx, conj)
